@@ -71,6 +71,17 @@ func genC02(g *Gen) {
 		}
 		c02Case(g, ch, tgt, tgts)
 		g.Count("seq")
+		if len(c) >= 1 && len(c) <= 3 {
+			// target lists longer than the chain, with repeats (all present / one absent)
+			long := []*big.Int{}
+			for i := 0; i < len(c)+1+g.R.Intn(3); i++ {
+				long = append(long, big.NewInt(c[g.R.Intn(len(c))]))
+			}
+			c02Case(g, ch, tgt, long)
+			long2 := append(cloneInts(long), big.NewInt(alpha[g.R.Intn(len(alpha))]))
+			c02Case(g, ch, tgt, long2)
+			g.Count("seq-long-targets")
+		}
 		if len(c) == maxLen {
 			return
 		}
@@ -87,6 +98,13 @@ func genC02(g *Gen) {
 			tgts := []*big.Int{big.NewInt(c[g.R.Intn(len(c))]), big.NewInt(c[g.R.Intn(len(c))] + int64(g.R.Intn(2)))}
 			c02Case(g, ch, tgt, tgts)
 			g.Count("valid")
+			long := []*big.Int{}
+			for i := 0; i < len(c)+1+g.R.Intn(4); i++ {
+				long = append(long, big.NewInt(c[g.R.Intn(len(c))]))
+			}
+			c02Case(g, ch, tgt, long)
+			c02Case(g, ch, tgt, []*big.Int{})
+			g.Count("valid-long-targets")
 		})
 	}
 	// random longer chains with big values, shuffled, with injected faults
